@@ -66,6 +66,20 @@ CONFIG = {
             "metrics and the peerset come from harness fakes behind the PeerMonitor and Consensus interfaces",
         ],
     },
+    "C05": {
+        "pkg": "c05",
+        "regress": "^TestRegress",
+        "legs": [
+            {"run": "^TestConverge$", "quick": (120, 16), "thorough": (4000, 16)},
+        ],
+        "floors": {"converge": {"nontrivial": 600, "cancel-in-flight": 200, "ipfs-error": 300, "full-queue": 50, "direct": 300}},
+        "assumptions": [
+            "model IPFS daemon: a call whose operation context was cancelled before it is released never commits (well-behaved daemon); recursive over direct upgrades, direct over recursive is refused, unpin of an absent CID succeeds",
+            "only Pin/Unpin calls park on the gate; pin ls calls answer immediately",
+            "a recursive pin is never re-tracked as direct without an untrack in between (Cluster.Pin refuses that)",
+            "a remote pin whose local best-effort unpin received an injected IPFS error may stay pinned (tolerated by the statement)",
+        ],
+    },
     "C08": {
         "pkg": "c08",
         "regress": "^TestRegress",
